@@ -678,6 +678,8 @@ class Rec(Ty):
         return v
 
     def pack(self, v):
+        if isinstance(v, VOpt) and isinstance(v.val, VRec):
+            v = v.val  # Optional[record] used where a record is required: guarded by the caller (as Opaque / Dict pack)
         if not isinstance(v, VRec):
             raise Unsupported(f"cannot pack {v} as record {self.name}")
         s = self.sort()
